@@ -19,6 +19,10 @@ class PathAbort(BaseException):
     """infeasible path / exploration control; never caught by code under test (BaseException)."""
 
 
+class BudgetExhausted(BaseException):
+    """the job's time budget is used up: the exploration stops and the job is reported as truncated"""
+
+
 class Unsupported(BaseException):
     """the Python semantics needed here are not modelled: the path is inconclusive, never a verdict."""
 
@@ -152,7 +156,8 @@ class Theory:
                     else:
                         out.append(enclosure(t, mpmath.log(mp(g))))
                 return out
-            out += [z3.Implies(a > 1, t > 0), z3.Implies(z3.And(a > 0, a < 1), t < 0), z3.Implies(a == 1, t == 0)]
+            out += [z3.Implies(a > 1, t > 0), z3.Implies(z3.And(a > 0, a < 1), t < 0), z3.Implies(a == 1, t == 0),
+                    z3.Implies(a == Q(E_FLOAT), t == 1)]
             for (oa, ot) in list(self.lns):
                 out.append(z3.Implies(z3.And(a > 0, oa > 0, t == ot), a == oa))
             self.lns.append((a, t))
@@ -308,10 +313,13 @@ class Engine:
         self.nq = 0
         self.tq = 0.0
         self.n_unknown_forks = 0
+        self.deadline = None
+        self.n_budget_skipped = 0
         self.pc = []
         self.trace = []
         self.prefix = []
         self.last = None
+        self.decided = {}
         self.notes = []          # per-path free-form notes (rule firings etc.)
         self.decisions = {}      # non-boolean decision points (e.g. set iteration order)
 
@@ -331,6 +339,9 @@ class Engine:
 
     def check(self, *extra, timeout=None):
         t = time.time()
+        if self.deadline is not None and t > self.deadline:
+            self.n_budget_skipped += 1        # job time budget exhausted: inconclusive, never a verdict
+            raise BudgetExhausted()
         s = self.solver(*extra, timeout=timeout)
         r = s.check()
         self.nq += 1
@@ -343,6 +354,7 @@ class Engine:
         self.trace = []
         self.pc = []
         self.notes = []
+        self.decided = {}
 
     def add(self, c):
         self.pc.append(c)
@@ -353,6 +365,17 @@ class Engine:
             return True
         if z3.is_false(cond):
             return False
+        cid = cond.get_id()
+        if cid in self.decided:          # the same condition was already decided on this path
+            return self.decided[cid][0]
+        d = self._branch(cond)
+        # the AST is stored with the decision: it keeps the term alive so that its id cannot be reused
+        self.decided[cid] = (d, cond)
+        neg = cond.arg(0) if z3.is_not(cond) else z3.Not(cond)
+        self.decided[neg.get_id()] = (not d, neg)
+        return d
+
+    def _branch(self, cond):
         i = len(self.trace)
         if i < len(self.prefix):
             d = self.prefix[i]
@@ -923,13 +946,15 @@ class PathResult:
         self.status, self.value, self.decisions, self.pc, self.notes = status, value, decisions, pc, notes
 
 
-def explore(fn, max_paths=2000, timeout_ms=10000):
+def explore(fn, max_paths=2000, timeout_ms=10000, budget_s=None):
     """Run fn(eng) once per feasible path.  Returns (engine, [PathResult]); engine.truncated tells whether
     the path budget cut the exploration."""
     global ENG, TH
     TH = Theory()
     _TOKENS.clear()
     eng = Engine(timeout_ms)
+    if budget_s:
+        eng.deadline = time.time() + budget_s
     ENG = eng
     results = []
     while eng.worklist and len(results) < max_paths:
@@ -942,6 +967,10 @@ def explore(fn, max_paths=2000, timeout_ms=10000):
             results.append(PathResult("abort", str(e), list(eng.trace), list(eng.pc), list(eng.notes)))
         except Unsupported as e:
             results.append(PathResult("unsupported", str(e), list(eng.trace), list(eng.pc), list(eng.notes)))
+        except BudgetExhausted:
+            results.append(PathResult("abort", "job time budget exhausted", list(eng.trace), list(eng.pc), list(eng.notes)))
+            eng.worklist.append(prefix)
+            break
     eng.truncated = bool(eng.worklist)
     return eng, results
 
